@@ -65,6 +65,11 @@ def make_cases(tier, rng):
         again = [dict(g.est(rng, d, gap=0), id=e1["id"], nopeer="dial_again") for _ in range(2)]
         add("process", [e1] + again + [g.est(rng, gap=0)], "second-connection")
         cases[-1]["sequential"] = True
+    # an accept the application abandons (raw Accept, listener closed unused, nobody dialled), then the same id accepted
+    # again and dialled: the abandoned accept must leave nothing behind that the second one trips over (real processes)
+    for d in ["h2p", "p2h"]:
+        e = dict(g.est(rng, d, rng.choice(["accept_first", "dial_first"]), gap=rng.choice([0, 100])), pre="abandoned_accept")
+        add("process", [g.est(rng, gap=0), e, dict(g.est(rng, d, gap=0), id=e["id"], nopeer="dial_again"), g.est(rng, gap=0)], "reaccept")
     # the gRPC half of C09's last clause: closing the client ends the brokers' goroutines (a few in-process cases, it takes seconds)
     n = 0
     for c in cases:
